@@ -77,6 +77,39 @@ Definition mon_C13p (sc : scen) (obs : list callobs) : bool :=
 
 Definition check_C13p := check_with ps_C13 mon_C13p.
 
+(* the auditing lock turns a release by a thread that does not hold the lock into a flagged no-op; with a real raw lock it
+   would end somebody else's hold (C02: a second thread enters the exclusive section; C13 / C04: a failed try that changes
+   the hold state).  No execution may contain one. *)
+Definition ev_not_bad (e : ev) : bool := match e with ERaw _ _ _ RBad => false | _ => true end.
+Definition no_bad_release (obs : list callobs) : bool := forallb (fun co => forallb ev_not_bad (co_evs co)) obs.
+
+(* C17, next to mon_C17: a non-acquiring call (Debug formatting, is_poisoned, clear_poison) issues no release that the
+   auditing lock flags — a release of a lock the caller does not hold would end somebody else's hold if the lock were
+   held at that moment, whatever the hold table of this particular run looks like afterwards *)
+Fixpoint nonacq_no_bad_release (h : list (tid * apiop)) (obs : list callobs) : bool :=
+  match h, obs with
+  | (_, o) :: h', co :: obs' =>
+      (match o with
+       | AFmt _ | AIsPoisoned _ | AClearPoison _ =>
+           forallb (fun e => match e with ERaw _ _ _ RBad => false | _ => true end) (co_evs co)
+       | _ => true
+       end) && nonacq_no_bad_release h' obs'
+  | _, _ => true
+  end.
+
+(* C10, probes inside one hold (harness/src/psn.rs): a wrapper that is clean or already poisoned ([init]) is acquired in
+   some flavour; inside the hold user code may call clear_poison ([clear] = 1) and may then panic; or clear_poison is called
+   after the hold ([clear] = 2).  The property's clause: what the acquisition shows is the flag at that time; afterwards the
+   wrapper is poisoned iff, since the last clear_poison, a panic unwound while an exclusive hold was live (a panic during a
+   shared hold leaves it open). *)
+Definition c10_probe_ok (excl init : bool) (clear : nat) (panic seen after : bool) : bool :=
+  Bool.eqb seen init &&
+  match clear with
+  | 2 => negb after
+  | _ => let f1 := match clear with 1 => false | _ => init end in
+         if panic then (if excl then after else true) else Bool.eqb after f1
+  end.
+
 (* C10, "a poisoned acquisition still acquires the lock": a non-blocking acquisition (try / scoped try) of a Poisonable
    root whose leaves are all available in the hold table left by the previous call (histories are API-call-atomic) does
    not report WouldBlock, whatever the poison flag says.  Evaluated on the implementation's observation next to mon_C10. *)
@@ -635,3 +668,36 @@ Definition mon_C12 (relaxed : bool) (sc : scen) (obs : list callobs) : bool :=
 
 Definition ps_C12 : projspec := mkps ev_is_raw true false false.
 Definition check_C12 := check_with2 ps_C12 (mon_C12 false) (mon_C12 true).
+
+(* C12, second comparison.  The order in which one call releases several locks in a row is not part of any property
+   (Check.norm_runs), but with a one-shot fault whose index falls inside such a run the order decides WHICH release
+   panics, and everything after it differs.  A scenario on which model and implementation differ only from the run of
+   consecutive releases that contains the (first) faulted release onwards — every earlier call equal under the projection,
+   the faulting call equal up to the beginning of that run — is left to the monitor, which judges the implementation's
+   behaviour there directly (every other lock released exactly once or dead, no release of a lock that is not held, the
+   faulted lock dead). *)
+Definition is_rel_ev (e : ev) : bool := match e with ERaw _ (OUnlock | OUnlockSh) _ _ => true | _ => false end.
+Definition is_rel_fault (e : ev) : bool := match e with ERaw _ (OUnlock | OUnlockSh) _ RFault => true | _ => false end.
+
+Fixpoint before_faulted_run (pre run : list ev) (l : list ev) : option (list ev) :=
+  match l with
+  | [] => None
+  | e :: r => if is_rel_ev e then (if is_rel_fault e then Some (rev pre) else before_faulted_run pre (e :: run) r)
+              else before_faulted_run (e :: run ++ pre) [] r
+  end.
+
+Fixpoint same_upto_faulted_release_run (p : projspec) (m i : list callobs) : bool :=
+  match m, i with
+  | cm :: m', ci :: i' =>
+      match before_faulted_run [] [] (filter (ps_ev p) (co_evs ci)) with
+      | Some pi =>
+          match before_faulted_run [] [] (filter (ps_ev p) (co_evs cm)) with
+          | Some pm => Nat.eqb (co_tid cm) (co_tid ci) && list_eqb ev_eqb (norm_runs [] pm) (norm_runs [] pi)
+          | None => false
+          end
+      | None => callobs_eqb (project p cm) (project p ci) && same_upto_faulted_release_run p m' i'
+      end
+  | _, _ => false
+  end.
+Definition second_C12 (sc : scen) (impl : list callobs) : bool :=
+  same_upto_faulted_release_run ps_C12 (model_obs sc) impl.
